@@ -95,13 +95,13 @@ type CallRec struct {
 
 // InvRec tracks one INVOCATION received by a traffic client.
 type InvRec struct {
-	Req     wamp.ID
-	Tag     string
-	Seq     int
-	T       time.Duration
-	Final   bool // this callee sent a final answer
-	FinalT  time.Duration
-	FinalSeq int
+	Req         wamp.ID
+	Tag         string
+	Seq         int
+	T           time.Duration
+	Final       bool // this callee sent a final answer
+	FinalT      time.Duration
+	FinalSeq    int
 	Interrupted bool
 }
 
@@ -111,9 +111,9 @@ type TClient struct {
 	Beh       int
 	SlowDelay time.Duration
 	Out       []Sent
-	SubIDs    []wamp.ID           // acknowledged subscription ids, in order
-	SubReq    map[wamp.ID]TOp     // request -> op
-	SubByID   map[wamp.ID]TOp     // subscription id -> op
+	SubIDs    []wamp.ID       // acknowledged subscription ids, in order
+	SubReq    map[wamp.ID]TOp // request -> op
+	SubByID   map[wamp.ID]TOp // subscription id -> op
 	RegIDs    []wamp.ID
 	RegReq    map[wamp.ID]TOp
 	Calls     []*CallRec
@@ -125,9 +125,9 @@ type TClient struct {
 }
 
 const (
-	BehSlow = 10 + iota // answer after SlowDelay (in a goroutine)
-	BehTwice            // answer twice
-	BehForeign          // also answer with a request id that is not ours
+	BehSlow    = 10 + iota // answer after SlowDelay (in a goroutine)
+	BehTwice               // answer twice
+	BehForeign             // also answer with a request id that is not ours
 )
 
 func NewTClient(s *Sess, beh int, slow time.Duration) *TClient {
@@ -186,7 +186,7 @@ func (t *TClient) onRecv(s *Sess, m wamp.Message) {
 		}
 		// like a real client: the handler runs beside the reader, which must
 		// never be blocked by a send
-		simrt.Go("op:handler:"+t.Name, func() { t.answer(iv, x) })
+		simrt.GoIn(t.Party(), "op:handler:"+t.Name, func() { t.answer(iv, x) })
 	}
 }
 
@@ -220,7 +220,7 @@ func (t *TClient) answer(iv *InvRec, x *wamp.Invocation) {
 		}
 		yield()
 	case BehSlow:
-		simrt.Go("op:slow:"+t.Name, func() {
+		simrt.GoIn(t.Party(), "op:slow:"+t.Name, func() {
 			time.Sleep(t.SlowDelay)
 			yield()
 		})
@@ -398,14 +398,14 @@ func (t *TClient) Exec(c *Ctx, op TOp) bool {
 
 // TrafficCfg tunes the generator.
 type TrafficCfg struct {
-	NSess       int
-	OpsPerSess  int
-	Faults      bool // leave/close/stall ops
-	Timeouts    bool
-	Cancels     bool
-	Meta        bool
-	Kills       bool
-	SetupRegs   bool // every callee registers its procedures first and waits for the ack
+	NSess      int
+	OpsPerSess int
+	Faults     bool // leave/close/stall ops
+	Timeouts   bool
+	Cancels    bool
+	Meta       bool
+	Kills      bool
+	SetupRegs  bool // every callee registers its procedures first and waits for the ack
 }
 
 var trafficTopics = []wamp.URI{"t.a", "t.b", "t.a.x"}
@@ -505,7 +505,7 @@ func GenTraffic(g *Rand, tc TrafficCfg) []TOp {
 func RunTraffic(c *Ctx, clients []*TClient, ops []TOp, base int) {
 	done := make(chan int)
 	for i, cl := range clients {
-		simrt.Go("actor:"+cl.Name, func() {
+		simrt.GoIn(cl.Party(), "actor:"+cl.Name, func() {
 			defer func() { cl.Done = true; done <- i }()
 			for k, op := range ops {
 				if op.Sess != i || !c.Kept(base+k) {
